@@ -13,3 +13,12 @@ Print Assumptions C09_membership_is_total.
 
 Theorem C09_generic_is_the_catch_all : forall s, pandas_contains tGeneric s = Ok true.
 Proof. exact Generic_contains_everything. Qed.
+
+(* Python-list backend (REGENERATED backends/python/types/*.py over lib/PyValues.v): Generic is the catch-all for every list,
+   so the walk of C01 (props/C01.v part 4) always has an answer inside the typeset: its path starts at Generic and only
+   moves to types of the typeset. *)
+From V Require PyValues PythonContains_gen PythonBag.
+Theorem C09_python_list_generic_contains_every_list :
+  forall l : PyValues.pseq, PythonContains_gen.python_contains tGeneric l = true.
+Proof. exact PythonBag.python_generic_contains_everything. Qed.
+Print Assumptions C09_python_list_generic_contains_every_list.
